@@ -52,7 +52,9 @@ impl<W: WorldSpec> Engine<W> {
             }
         }
         m.archs[ai].cap = cap_after;
-        self.add_ind(bits, wid);
+        if !self.book_skip {
+            self.add_ind(bits, wid);
+        }
         rt::h(&[bits, cap_after as u64]);
     }
 
